@@ -1,6 +1,7 @@
 package main
 
 import (
+	"go/constant"
 	"fmt"
 	"go/token"
 	"sort"
@@ -187,17 +188,19 @@ type TSummary struct {
 	passWhenNil    KSet
 	passWhenNonNil KSet
 	nilWhenConsumed bool // some consuming return hands back the nil constant
+	mayRaise        bool // a raise point (of this function or of a callee, in the callee's context) is reachable
 }
 
 func (s *TSummary) key() string {
 	if s == nil {
 		return "nil"
 	}
-	return fmt.Sprintf("%s|%v|%s|%s|%v|%v|%s|%s|%s", s.pass.Key(), s.passNil, s.first.Key(), s.exit.Key(), s.mayConsume, s.retFirstSnap, s.raisesNC.Key(), s.passWhenNil.Key(), s.passWhenNonNil.Key()) + fmt.Sprint(s.nilWhenConsumed)
+	return fmt.Sprintf("%s|%v|%s|%s|%v|%v|%s|%s|%s", s.pass.Key(), s.passNil, s.first.Key(), s.exit.Key(), s.mayConsume, s.retFirstSnap, s.raisesNC.Key(), s.passWhenNil.Key(), s.passWhenNonNil.Key()) + fmt.Sprint(s.nilWhenConsumed, s.mayRaise)
 }
 
 type TKAI struct {
 	w      *World
+	calleeRaise bool // set while a function is being summarised: some callee summary used so far may raise
 	sums   map[tkCtx]*TSummary
 	infos  map[tkCtx]*ctxInfo
 	order  []tkCtx
@@ -553,10 +556,21 @@ func (tk *TKAI) flowMulti(ci *ctxInfo, starts map[*ssa.BasicBlock][2]*TState, re
 		// its phi operand.
 		var iff *ssa.If
 		var phi *ssa.Phi
+		var phiCmp *ssa.BinOp
+		var phiConst *ssa.Const
 		if x, ok := b.Instrs[len(b.Instrs)-1].(*ssa.If); ok {
 			iff = x
 			if p, ok := x.Cond.(*ssa.Phi); ok && p.Block() == b && !isStart(b) {
 				phi = p
+			}
+			// the same for `phi ==/!= constant` where the phi merges constants chosen by a switch on the token
+			// kind (op := ""; switch kind { case "UNION": op = … }; if op == "" { break })
+			if bo, ok := x.Cond.(*ssa.BinOp); ok && (bo.Op == token.EQL || bo.Op == token.NEQ) && !isStart(b) {
+				if p, ok := bo.X.(*ssa.Phi); ok && p.Block() == b {
+					if c, ok := bo.Y.(*ssa.Const); ok && c.Value != nil {
+						phi, phiCmp, phiConst = p, bo, c
+					}
+				}
 			}
 		}
 		next := make([][2]*TState, len(b.Succs))
@@ -594,6 +608,19 @@ func (tk *TKAI) flowMulti(ci *ctxInfo, starts map[*ssa.BasicBlock][2]*TState, re
 					continue
 				}
 				v := phi.Edges[pi]
+				if phiCmp != nil {
+					if ec, isC := v.(*ssa.Const); isC && ec.Value != nil && ec.Value.Kind() == phiConst.Value.Kind() {
+						eq := constant.Compare(ec.Value, token.EQL, phiConst.Value)
+						if eq == (phiCmp.Op == token.EQL) {
+							emit(outs, nil, 0)
+						} else {
+							emit(outs, nil, 1)
+						}
+					} else {
+						emit(outs, nil, -1)
+					}
+					continue
+				}
 				if cb, isC := constBool(v); isC {
 					if cb {
 						emit(outs, nil, 0)
@@ -866,6 +893,9 @@ func (tk *TKAI) applyCallee(ci *ctxInfo, st *TState, in ssa.CallInstruction, cal
 		}
 	}
 	sum := tk.summaryMode(callee, st.cur, consts, false, ci != nil && ci.key.clean)
+	if sum.mayRaise {
+		tk.calleeRaise = true
+	}
 	var outs []*TState
 	if sum.pass.m != nil && !sum.pass.IsEmpty() {
 		if resVal != nil && len(sum.passNil) == 1 && refLikeOrIface(resVal) {
@@ -1153,9 +1183,11 @@ func (tk *TKAI) deferredRestore(fn *ssa.Function) (bound ssa.Value, ok bool) {
 func (tk *TKAI) compute(ci *ctxInfo) *TSummary {
 	fn := ci.fn
 	init := newTState(ci.entry)
+	tk.calleeRaise = false
 	res := tk.flow(ci, fn.Blocks[0], [2]*TState{init, nil}, nil, nil)
 	nres := fn.Signature.Results().Len()
 	s := &TSummary{passNil: make([]bool, nres), retFirstSnap: make([]bool, nres)}
+	s.mayRaise = tk.calleeRaise || len(res.rz) > 0
 	for i := range s.passNil {
 		s.passNil[i] = true
 		s.retFirstSnap[i] = true
